@@ -13,6 +13,14 @@ sys.path.insert(0, os.path.join(vlib.VERIF, "harness"))
 import bzcraft  # noqa: E402
 
 DEC_GEN = ["DecTabs.v", "CrcTab.v", "Consts.v"]
+PARSE_TRUSTED = [
+    "stream layer: lib/gen_parse.py transcribes the switch of parse() (src/parse.c) statement by statement into Gen/ParseTab.v (typed C "
+    "expressions with explicit 32-bit wrap; refuses goto/loops/unknown calls/changed bits_* macros); Properties_C15parse proves that the "
+    "regenerated machine, driven as expand.c drives it, refines the stream layer of Dec/Format.v (verdicts, (level, CRC) sequence, "
+    "combined stream CRC compared in all 32 bits, concatenated streams, trailing garbage 0/16/32 bits) for every bit string, block "
+    "handler and chunking; hand-written there: the list-plus-eof model of the bit buffer (32-bit word granularity, zero padding of the "
+    "last word and expand.c's eof_missing are not modelled) and the driver pdrive",
+]
 DEC_TRUSTED = [
     "Coq 8.16.1 kernel (coqc); vm_compute for finite sweeps over regenerated tables (64-entry delta/selector tables, "
     "304 window/strict state pairs, 256-entry CRC table); no native_compute",
